@@ -9,6 +9,21 @@
 // these shims by macro retargeting in the harness TU (see harness/C16.cc) — no source hooks.
 // Data races on non-atomic memory are invisible to a serialising scheduler; they are the job of
 // the separate free-running ThreadSanitizer build of the same harness bodies.
+//
+// Environment answers owned by the explorer besides the schedule:
+//  * SPURIOUS FAILURE OF compare_exchange_weak.  The C++ memory model lets a weak CAS fail although
+//    the stored value equals `expected` (real on LL/SC hardware).  Whenever a weak CAS *would
+//    succeed*, and the execution still has spurious-failure budget (Scheduler::spurious_budget,
+//    a deviation bound per execution), the outcome is a binary choice point of the DFS: succeed,
+//    or fail spuriously (memory unchanged, `expected` keeps holding the current value, returns
+//    false).  The same thread never fails spuriously twice in a row on the same atomic, so retry
+//    loops stay finite even with a large budget.  compare_exchange_strong never fails spuriously.
+//    The budget used so far and the per-thread "just failed spuriously on atomic k" flag are part
+//    of the visited-state key.
+//  * std::thread::hardware_concurrency(): Scheduler::hardware_concurrency (the harness enumerates it).
+//  * Objects that outlive an execution: an Atomic constructed in an earlier execution (a static
+//    in the code under test) and used in this one is reported (Execution::stale_atomic) instead
+//    of silently making executions depend on each other.
 #pragma once
 #include <stdlib.h>
 #include <sys/mman.h>
@@ -72,6 +87,7 @@ struct ChoicePoint {
   std::vector<int> enabled;  // canonical order: running thread first if still enabled, then ascending ids
   int taken = 0;             // index into enabled
   bool running_enabled = false;
+  bool spurious = false;     // true: not a scheduling choice but "weak CAS succeeds (0) / fails spuriously (1)"
   uint64_t state = 0;        // hash of the global state at this point
 };
 
@@ -84,6 +100,7 @@ struct Fiber {
   OpKind pending = OP_START;
   int join_target = -1;
   uint64_t obs = 1469598103934665603ull;  // hash of everything this thread has observed
+  const void* last_spurious = nullptr;    // atomic on which this thread's latest atomic operation failed spuriously
   ucontext_t ctx;
   void* sp = nullptr;
   char* stack = nullptr;
@@ -100,7 +117,10 @@ struct AtomicBase {
 struct Execution {
   std::vector<ChoicePoint> points;
   bool deadlock = false, livelock = false, unjoined_destroyed = false, diverged = false, escaped_exception = false;
+  bool stale_atomic = false;  // an Atomic constructed before this execution began was used in it
   uint64_t steps = 0;
+  int spurious_injected = 0;  // spurious weak-CAS failures taken in this execution
+  uint64_t weak_cas_ops = 0, weak_cas_would_succeed = 0;
 };
 
 class Scheduler {
@@ -121,6 +141,9 @@ class Scheduler {
   // no state from one poll iteration to the next (argued per harness; cross-checked by runs with
   // the flag off).
   bool reset_obs_on_yield = false;
+  int spurious_budget = 0;             // max spurious weak-CAS failures per execution (0 = weak behaves like strong)
+  unsigned hardware_concurrency = 2;   // answer of the std::thread::hardware_concurrency() shim
+  uint64_t epoch = 0;                  // number of the current execution (stale-object detection)
   void yield_returned() {
     if (reset_obs_on_yield) fibers[current]->obs = 0x9171d + (uint64_t)current;
     else observe(0x51ee9);
@@ -136,6 +159,7 @@ class Scheduler {
     fibers[0]->pending = OP_ATOMIC;
     current = 0;
     aborted = false;
+    epoch++;
   }
   // Runs every remaining thread to completion (threads the code under test failed to join).
   void end() {
@@ -159,6 +183,42 @@ class Scheduler {
     t.obs ^= t.obs >> 29;
   }
   void reg_atomic(AtomicBase* a) { atomics.push_back(a); }
+  void flag_stale_atomic() { if (!aborted) ex.stale_atomic = true; }
+  // Called by every atomic operation other than a weak CAS, after its scheduling point.
+  void atomic_op_done() { fibers[current]->last_spurious = nullptr; }
+  // Called by compare_exchange_weak after its scheduling point.  would_succeed: the stored value
+  // equals `expected`.  Returns true when the explorer decides that this CAS fails spuriously.
+  bool weak_cas_fails_spuriously(const void* a, bool would_succeed) {
+    Fiber& t = *fibers[current];
+    ex.weak_cas_ops++;
+    bool allowed = would_succeed && ex.spurious_injected < spurious_budget && t.last_spurious != a;
+    t.last_spurious = nullptr;
+    if (would_succeed) ex.weak_cas_would_succeed++;
+    if (!allowed) return false;
+    ChoicePoint cp;
+    cp.enabled = {0, 1};
+    cp.spurious = true;
+    cp.running_enabled = false;  // not a preemption
+    cp.state = (state_hash(current) ^ (0x5b0f5b0f00ull + (uint64_t)current)) * 0x9e3779b97f4a7c15ull;
+    size_t k = ex.points.size();
+    if (k < prefix.size()) {
+      if (prefix[k] < 0 || prefix[k] > 1) {
+        ex.diverged = true;
+        aborted = true;
+        if (current == 0) throw AbortExecution();
+        abandon();
+      }
+      cp.taken = prefix[k];
+    } else cp.taken = 0;
+    bool fail = cp.taken == 1;
+    ex.points.push_back(std::move(cp));
+    if (fail) {
+      ex.spurious_injected++;
+      t.last_spurious = a;
+      observe(0x5b0f);
+    }
+    return fail;
+  }
   void unreg_atomic(AtomicBase* a) {
     for (size_t i = 0; i < atomics.size(); i++)
       if (atomics[i] == a) atomics[i] = nullptr;
@@ -336,7 +396,13 @@ class Scheduler {
       mix(t->finished ? 0 : ((uint64_t)t->pending << 8) ^ (uint64_t)(t->join_target + 1));
       mix(t->finished ? 0 : (t->yielded ? 3 : 4));
       mix(t->obs);
+      if (t->last_spurious) {
+        uint64_t k = 0;
+        for (size_t i = 0; i < atomics.size(); i++) if ((const void*)atomics[i] == t->last_spurious) k = i + 1;
+        mix(0x5b0f0000 + k);
+      }
     }
+    if (spurious_budget) mix(0xb0d6e7 + (uint64_t)ex.spurious_injected);
     if (include_runner_in_state) mix(0x1000 + runner);
     if (extra_state) mix(extra_state());
     return h;
@@ -376,12 +442,18 @@ class Atomic : public AtomicBase {
     memcpy(&b, &x, sizeof(T) < 8 ? sizeof(T) : 8);
     return b;
   }
-  void pt() const { Scheduler::get().point(OP_ATOMIC, -1); }
+  uint64_t born;  // execution in which this object was constructed
+  void pt0() const {
+    Scheduler& S = Scheduler::get();
+    if (born != S.epoch) S.flag_stale_atomic();
+    S.point(OP_ATOMIC, -1);
+  }
+  void pt() const { pt0(); Scheduler::get().atomic_op_done(); }
   T seen(T x) const { Scheduler::get().observe(tobits(x) * 31 + 7); return x; }
 
  public:
-  Atomic() : v() { Scheduler::get().reg_atomic(this); }
-  Atomic(T x) : v(x) { Scheduler::get().reg_atomic(this); }
+  Atomic() : v(), born(Scheduler::get().epoch) { Scheduler::get().reg_atomic(this); }
+  Atomic(T x) : v(x), born(Scheduler::get().epoch) { Scheduler::get().reg_atomic(this); }
   Atomic(const Atomic&) = delete;
   Atomic& operator=(const Atomic&) = delete;
   ~Atomic() override { Scheduler::get().unreg_atomic(this); }
@@ -402,9 +474,16 @@ class Atomic : public AtomicBase {
     expected = seen(v);
     return false;
   }
-  // weak CAS is modelled without spurious failure (a spurious failure only adds a retry)
-  bool compare_exchange_weak(T& expected, T desired, std::memory_order a = std::memory_order_seq_cst, std::memory_order b = std::memory_order_seq_cst) {
-    return compare_exchange_strong(expected, desired, a, b);
+  // Weak CAS: when it would succeed the explorer may decide (within Scheduler::spurious_budget)
+  // that it fails spuriously: memory unchanged, `expected` untouched (it already equals the
+  // current value, which is what the standard says it holds after a failure), result false.
+  bool compare_exchange_weak(T& expected, T desired, std::memory_order = std::memory_order_seq_cst, std::memory_order = std::memory_order_seq_cst) {
+    pt0();
+    bool would = tobits(v) == tobits(expected);
+    if (Scheduler::get().weak_cas_fails_spuriously(this, would)) return false;
+    if (would) { v = desired; Scheduler::get().observe(0xce1); return true; }
+    expected = seen(v);
+    return false;
   }
   T operator++() { return (T)(fetch_add(1) + 1); }
   T operator++(int) { return fetch_add(1); }
@@ -445,7 +524,7 @@ class Thread {
     id_ = -1;
   }
   void detach() { id_ = -1; }
-  static unsigned hardware_concurrency() noexcept { return 2; }
+  static unsigned hardware_concurrency() noexcept { return Scheduler::get().hardware_concurrency; }
 };
 
 inline int vf_usleep_impl() {
@@ -458,6 +537,7 @@ inline int vf_usleep_impl() {
 
 struct ExploreStats {
   uint64_t schedules = 0, states = 0, transitions = 0, pruned = 0, max_preemptions = 0, max_points = 0;
+  uint64_t schedules_with_spurious = 0, spurious_choice_points = 0, weak_cas_ops = 0, max_spurious_in_one = 0;
   bool complete = true;
   std::string failure;  // first failure description ("" = none)
   std::vector<int> failing_choices;
@@ -485,9 +565,13 @@ inline ExploreStats explore(const std::function<std::string(const std::vector<in
     if (x.diverged) { st.failure = "ENGINE: divergence while replaying a prefix"; st.failing_choices = prefix; st.complete = false; return st; }
     if (x.deadlock) fail = "deadlock: no enabled thread while some thread has not finished";
     else if (x.livelock) fail = "livelock: horizon of scheduling steps exceeded";
+    else if (fail.empty() && x.stale_atomic) fail = "state carried between calls: an atomic object constructed before this execution began (static storage in the code under test) was used";
     else if (fail.empty() && x.escaped_exception) fail = "an exception escaped a worker thread (std::thread would call std::terminate)";
     else if (fail.empty() && x.unjoined_destroyed) fail = "a joinable thread object was destroyed (std::thread would call std::terminate)";
     if (x.points.size() > st.max_points) st.max_points = x.points.size();
+    if (x.spurious_injected) st.schedules_with_spurious++;
+    if ((uint64_t)x.spurious_injected > st.max_spurious_in_one) st.max_spurious_in_one = x.spurious_injected;
+    st.weak_cas_ops += x.weak_cas_ops;
     if (!fail.empty()) {
       st.failure = fail;
       for (auto& p : x.points) st.failing_choices.push_back(p.taken);
@@ -506,6 +590,7 @@ inline ExploreStats explore(const std::function<std::string(const std::vector<in
       // a state seen before has had (or will have) all its futures explored from the first visit
       if (!visited.insert(key).second) { st.pruned++; break; }
       st.states++;
+      if (p.spurious) st.spurious_choice_points++;
       for (size_t alt = 1; alt < p.enabled.size(); alt++) {
         int cost = pre[i] + (p.running_enabled ? 1 : 0);
         if (bound >= 0 && cost > bound) continue;
